@@ -15,7 +15,7 @@ Definition select (T : ty) (As : list ty) (attr : list string) : res (list entry
   end.
 
 Ltac derive_crush NewN_spec FMapN_spec :=
-  intros;
+  intros; repeat autounfold with golem_helpers;
   match goal with |- ?f _ = _ => idtac end;
   match goal with
   | attr : list string |- _ =>
